@@ -7,6 +7,8 @@ CONSTANTS
   HitMode = "identity"
   Random = FALSE
   FbMode = "faithful"
+  ShareSel = "parity"
+  RbMode = "faithful"
 INIT Init
 NEXT Next
 INVARIANT NotSharedTypes
